@@ -3,12 +3,13 @@
 records the outcome in its meta.json, and prints a table.  usage: tools/seed_run.py [--only C05] [--tier quick]"""
 import json, os, subprocess, sys, glob, re
 ROOT = os.path.dirname(os.path.dirname(os.path.abspath(__file__)))
-only = None; tier = "quick"; match = None
+only = None; tier = "quick"; match = None; start = None
 a = sys.argv[1:]
 while a:
     if a[0] == "--only": only = a[1]; a = a[2:]
     elif a[0] == "--tier": tier = a[1]; a = a[2:]
     elif a[0] == "--match": match = a[1]; a = a[2:]
+    elif a[0] == "--from": start = a[1]; a = a[2:]
     else: a = a[1:]
 def sh(cmd, **kw): return subprocess.run(cmd, shell=True, capture_output=True, text=True, **kw)
 assert sh("git -C /repo diff --quiet").returncode == 0, "/repo is dirty"
@@ -20,6 +21,7 @@ for meta_path in sorted(glob.glob(f"{ROOT}/seeded/*/*/meta.json")):
     meta = json.load(open(meta_path))
     pid = meta["property"]
     if only and pid != only: continue
+    if start and pid < start: continue
     if match and match not in os.path.basename(d): continue
     r = sh(f"git -C /repo apply {d}/patch.diff")
     if r.returncode != 0:
@@ -31,7 +33,7 @@ for meta_path in sorted(glob.glob(f"{ROOT}/seeded/*/*/meta.json")):
             r = sh(f"cd {ROOT} && timeout 1800 ./check {cid} --tier {tier}")
             out = r.stdout
             viol = [l.strip() for l in out.splitlines() if l.strip().startswith("violation [")]
-            sigs = [re.match(r"violation \[([^\]]*)\]", v).group(1) for v in viol]
+            sigs = [(re.match(r"violation \[([^\]]*)\]", v) or re.match(r"(.{0,80})", v)).group(1) for v in viol]
             caught = r.returncode == 1 and any(l.startswith("VIOLATION property=" + cid) for l in out.splitlines())
             meta["checks_run"].append({"cmd": f"./check {cid} --tier {tier}", "exit": r.returncode, "caught": caught, "violation_signatures": sigs, "first_violation": (viol[0][:400] if viol else None)})
             any_caught |= caught; all_sigs += [f"{cid}:{x}" if cid != pid else x for x in sigs]
